@@ -5,6 +5,7 @@ import (
 	"fmt"
 	"sort"
 	"strings"
+	"sync"
 	"time"
 
 	"github.com/PowerDNS/lightningstream/config"
@@ -61,6 +62,8 @@ func cmdCleaner(args []string) error {
 	return Emit(R)
 }
 
+var otherKindOnce sync.Once
+
 func replayCleaner(R *Result, in clInput, beh []clStep, bi int) {
 	ctx := context.Background()
 	clUnit := clUnits[bi%len(clUnits)]
@@ -79,6 +82,14 @@ func replayCleaner(R *Result, in clInput, beh []clStep, bi int) {
 		clName("other", 1, 1), clName("other", 1, 2),
 		"default__garbage", "default__i1__notatimestamp__GX.pb.gz", "default__i1__20240101-000100-000000000.pb.gz",
 		"README.txt", "default__i1__20240101-000100-000000000__GX.unknownext",
+	}
+	// files of our own database and instances that are of another registered kind (an extension registered through
+	// snapshot.RegisterExtension): not snapshots - never deleted, never counted as an instance's newest snapshot
+	otherKindOnce.Do(func() { snapshot.RegisterExtension("journal.gz", "journal") })
+	for _, it := range [][2]int{{1, 1}, {1, 2}, {1, 40}, {2, 1}, {2, 40}, {3, 40}} {
+		ni := snapshot.NameInfo{Kind: "journal", Extension: "journal.gz", SyncerName: "default",
+			InstanceID: fmt.Sprintf("i%d", it[0]), GenerationID: "GX", Timestamp: clTime(it[1])}
+		foreign = append(foreign, ni.BuildName())
 	}
 	for _, f := range foreign {
 		_ = fb.Interface.Store(ctx, f, []byte("x"))
